@@ -311,7 +311,14 @@ impl<'a> FnGen<'a> {
             }
             _ => {
                 // global memory: implicit RAM operand or explicit load from .data / .rodata
-                let g = if self.rng.chance(1, 2) { DATA_BASE + 8 * self.rng.below(8) } else { RODATA_BASE + 0x70 + 8 * self.rng.below(4) };
+                // global addresses: .data, read-only data, and the last bytes of the read-only / data segments
+                // (reads that straddle a segment end)
+                let g = match self.rng.below(6) {
+                    0 | 1 => DATA_BASE + 8 * self.rng.below(8),
+                    2 | 3 => RODATA_BASE + 0x70 + 8 * self.rng.below(4),
+                    4 => DATA_BASE - 1 - self.rng.below(8),
+                    _ => RODATA_BASE - 1 - self.rng.below(8),
+                };
                 if self.rng.chance(1, 2) {
                     vec![copy(self.r64(), ram(g, 8))]
                 } else {
